@@ -2,7 +2,7 @@
    hand-written models of Masks.v on every input.  The models count in nat and are polymorphic; the generated code
    works on Python ints (Z), so the statements go through Z.of_nat. *)
 From Coq Require Import ZArith List Bool Lia.
-From Shampoo Require Import Masks.
+From Shampoo Require Import Masks MasksProofs.
 From ShampooGen Require Import PyPrelude PyPreludeFacts GenC04.
 Import ListNotations.
 Open Scope Z_scope.
@@ -45,3 +45,46 @@ Proof.
   cbn [app py_accumulate]. pose proof (py_accumulate_eq_model l 0) as H. cbn [Z.of_nat] in H. rewrite H. apply py_pairwise_map.
 Qed.
 Print Assumptions gen_generate_pairwise_indices_eq_model.
+
+(* ---- the global gradient selector built by DistributorInterface._merge_and_block_gradients ------------------- *)
+(* The slice of the function that computes `global_grad_selector` (the statements that split a gradient and collect its
+   local blocks are left out: they do not feed the selector): for parameter-wise lists of equal length - zip(strict=True)
+   raises otherwise - it is Masks.expand, "[grad is not None] * num_blocks, parameter after parameter", whatever the
+   distributor selector is.  Masks.merge_and_block_spec proves that the model's _merge_and_block_gradients returns this. *)
+Lemma zip_strict_combine {A B} (a : list A) : forall (b : list B), length a = length b -> py_zip_strict a b = Ret (combine a b).
+Proof.
+  induction a as [|x a IH]; intros [|y b] H; try discriminate; [reflexivity|]. cbn [py_zip_strict combine].
+  rewrite IH by (cbn [length] in H; lia). reflexivity.
+Qed.
+
+Lemma list_mul_repeat' {A} (x : A) (n : nat) : py_list_mul [x] (Z.of_nat n) = repeat x n.
+Proof. unfold py_list_mul. rewrite Nat2Z.id. induction n as [|n IH]; [reflexivity|]. cbn [repeat concat app]. rewrite IH. reflexivity. Qed.
+
+Theorem gen_global_grad_selector_eq_model :
+  forall (grads : list (option Z)) (dims : list (list Z)) (nbs : list nat) (dsel : list bool),
+  length dims = length grads -> length nbs = length grads ->
+  GenC04.global_grad_selector_of grads dims (map Z.of_nat nbs) dsel
+  = Ret (Masks.expand (map (fun g => negb (py_is_none g)) grads) nbs).
+Proof.
+  intros grads dims nbs dsel Hd Hn. unfold GenC04.global_grad_selector_of. cbv zeta.
+  rewrite gen_generate_pairwise_indices_eq_model, bind_ret.
+  set (pw := map (fun p : nat * nat => (Z.of_nat (fst p), Z.of_nat (snd p))) (Masks.generate_pairwise_indices nbs)).
+  assert (Hpw : length pw = length grads).
+  { unfold pw. rewrite map_length. rewrite (proj1 (generate_pairwise_indices_spec nbs)). exact Hn. }
+  rewrite (zip_strict_combine grads dims) by lia. rewrite bind_ret.
+  rewrite zip_strict_combine by (rewrite combine_length, map_length; lia). rewrite bind_ret.
+  rewrite zip_strict_combine by (rewrite !combine_length, map_length; lia). rewrite bind_ret.
+  match goal with |- context[py_for ?b _ _] => set (body := b) end.
+  assert (Hloop : forall grads dims nbs pw (acc : list bool) (lm : list tensor),
+            length dims = length grads -> length nbs = length grads -> length pw = length grads ->
+            py_for body (combine (combine (combine grads dims) (map Z.of_nat nbs)) pw) (acc, lm)
+            = Ret (acc ++ Masks.expand (map (fun g => negb (py_is_none g)) grads) nbs, lm)).
+  { clear. induction grads as [|g grads IH]; intros [|d dims] [|nb nbs] [|p pw] acc lm H1 H2 H3; try discriminate.
+    - cbn [combine map py_for Masks.expand]. rewrite app_nil_r. reflexivity.
+    - cbn [combine map py_for Masks.expand]. unfold body at 1. destruct p as [b0 b1]. cbv zeta. rewrite list_mul_repeat'.
+      assert (E : forall c : bool, (if c then Ret (acc ++ repeat (negb (py_is_none g)) nb, lm) else Ret (acc ++ repeat (negb (py_is_none g)) nb, lm))
+                                   = Ret (acc ++ repeat (negb (py_is_none g)) nb, lm)) by (intros []; reflexivity).
+      rewrite E. cbn [bind]. rewrite IH by (cbn [length] in *; lia). rewrite <- app_assoc. reflexivity. }
+  rewrite Hloop by assumption. reflexivity.
+Qed.
+Print Assumptions gen_global_grad_selector_eq_model.
